@@ -884,6 +884,10 @@ func (p *c16) runIter(res *fw.Result, z gen.Named) {
 }
 
 func (p *c16) Rule() string {
+	return p.ruleBase() + " " + "Round 12: containers that reach an embedded pointer (nil or not) two and three levels down - by value, by pointer, mixed, next to another embedded struct - and Deep1/Deep2/DeepI1/DeepI2; methods with array parameters and argument lists of slices of every small length, arrays, array pointers and strings."
+}
+
+func (p *c16) ruleBase() string {
 	return "getattr: the full product container zoo (nil/empty/populated slices and arrays of several element types, maps keyed by string/int/float/bool/uint8/interface/struct, structs with exported, unexported, func-typed fields and value/pointer-receiver methods of arity 0..2, variadic, multi-return, no-return, pointer/interface/float/slice parameters; through 0..2 pointer levels; nil pointers; non-containers) x key zoo (strings incl. field/method names, ints, floats incl. NaN/Inf/1e30, bools, nil, nil pointer, containers, Stringer, safe value) x 22 argument lists; expectation computed with plain reflection in the harness: the element when the key/arguments are usable as given, element-or-error when a conversion is conceivable (number for a string-keyed map, numeric string or bool for a slice, fractional index, float for an int parameter, second pointer level), error otherwise; never a panic, never a wrong element. Each pair is also driven through {{ v[k] }}, {% for %} and 'in' in a template. iterate: every zoo value plus generated slices/maps of length 0..8 through 0..2 pointer levels: order, exactly-once, loop identities at every position, returned count, early break at 1..3, and agreement of Len, Contains (needles present and absent), IsIterable, IsArray, IsMap with the traversal; every key or index handed out by the traversal must find its own element again through GetAttr. random: seeded nested containers (maps keyed by string/int/float/bool/uint8/interface, slices, arrays, pointers, structs; depth<=3) looked up with one of their own keys (as is, or carried by another numeric type / as a numeric string) or a zoo key, and iterated. Non-trivial = key usable or convertible, or a method call; distinct = (container, key, arg list)."
 }
 
